@@ -512,6 +512,222 @@ def inline_helpers(doc, log):
             log.append("helper definitions folded into their callers: %s" % sorted(gone))
 
 
+# ----------------------------------------------------------------------------------------------
+# 5. expression-level inlining of new pure helpers (a single expression, or immutable lets followed by an expression)
+
+
+def _expr_body(fn):
+    """the helper's value as one expression with its immutable lets substituted, or None"""
+    st = fn["body"]["stmts"]
+    if not st or st[-1].get("k") != "expr":
+        return None
+    env = {}
+    for s in st[:-1]:
+        if s.get("k") == "let" and s["pat"].get("k") == "pident" and not s["pat"].get("mut") and isinstance(s.get("init"), dict):
+            env[s["pat"]["name"]] = (_subst(s["init"], env), False, None)
+        else:
+            return None
+    e = _subst(st[-1]["e"], env)
+    for x in walk(e):
+        if x.get("k") in ("assign", "opassign", "return", "break", "continue", "try", "closure", "for", "while", "loop", "macro") and x is not e:
+            if x.get("k") == "macro" and x.get("name") in ("t", "vec"):
+                continue
+            return None
+    return e
+
+
+def inline_expr_helpers(doc, log):
+    fns = all_fns(doc)
+    free, methods = {}, {}
+    for path, owner, is_trait, fn in fns:
+        if fn.get("body") is None or fn["name"] in KNOWN_FNS or is_trait or (fn.get("vis") or "") == "pub":
+            continue
+        if fn.get("receiver") == "&mut self":
+            continue
+        if owner is None:
+            free.setdefault(fn["name"], []).append(fn)
+        else:
+            methods.setdefault((owner, fn["name"]), []).append(fn)
+    free = {k: v[0] for k, v in free.items() if len(v) == 1}
+    methods = {k: v[0] for k, v in methods.items() if len(v) == 1}
+    if not free and not methods:
+        return
+    used = set()
+
+    def rewrite(n, owner, depth=0):
+        if isinstance(n, list):
+            return [rewrite(x, owner, depth) for x in n]
+        if not isinstance(n, dict):
+            return n
+        n = {k: (rewrite(v, owner, depth) if isinstance(v, (dict, list)) else v) for k, v in n.items()}
+        fn = args = None
+        if n.get("k") == "call" and isinstance(n.get("f"), dict) and n["f"].get("k") == "path":
+            segs = n["f"]["p"].split("::")
+            name = segs[-1].split("<")[0]
+            if len(segs) == 1 and name in free:
+                fn, args = free[name], n["args"]
+            elif len(segs) == 2 and segs[0] == "Self" and owner and (owner, name) in methods and methods[(owner, name)].get("receiver") is None:
+                fn, args = methods[(owner, name)], n["args"]
+        elif n.get("k") == "mcall" and isinstance(n.get("recv"), dict) and n["recv"].get("k") == "path" and n["recv"].get("p") == "self" \
+                and owner and (owner, n["name"]) in methods and methods[(owner, n["name"])].get("receiver") == "&self":
+            fn, args = methods[(owner, n["name"])], n["args"]
+        if fn is None or depth > 4:
+            return n
+        params = [p for p in fn["params"] if p.get("name")]
+        if len(params) != len(args) or not all(_pure_arith(a) or a.get("k") in ("ref",) and _pure_arith(a.get("e")) for a in args):
+            return n
+        body = _expr_body(fn)
+        if body is None:
+            return n
+        env = {}
+        for p, a in zip(params, args):
+            env[p["name"]] = (a["e"], True, a) if a.get("k") == "ref" else (a, False, a)
+        used.add(fn["name"])
+        out = _subst(copy.deepcopy(body), env)
+        out = rewrite(out, owner, depth + 1)
+        return {"k": "paren", "e": out, "ln": n.get("ln", 0)} if out.get("k") in ("bin", "cast", "un") else out
+
+    for path, owner, is_trait, fn in fns:
+        if fn.get("body") is None:
+            continue
+        own = owner if owner and not owner.startswith("trait ") else None
+        fn["body"] = rewrite(fn["body"], own)
+    if used:
+        log.append("pure helper expressions substituted at their call sites: %s" % sorted(used))
+        # definitions that are no longer called disappear
+        still = set()
+        for path, owner, is_trait, fn in all_fns(doc):
+            if fn.get("body") is None or fn["name"] in used:
+                continue
+            for x in walk(fn["body"]):
+                if x.get("k") == "call" and isinstance(x.get("f"), dict) and x["f"].get("k") == "path" and x["f"]["p"].split("::")[-1].split("<")[0] in used:
+                    still.add(x["f"]["p"].split("::")[-1].split("<")[0])
+                if x.get("k") == "mcall" and x.get("name") in used and isinstance(x.get("recv"), dict) and x["recv"].get("k") == "path" and x["recv"].get("p") == "self":
+                    still.add(x["name"])
+        gone = used - still
+
+        def prune(items):
+            out = []
+            for it in items:
+                if it.get("k") == "fn" and it["name"] in gone and it["name"] in free:
+                    continue
+                if it.get("k") == "impl":
+                    it["fns"] = [f for f in it["fns"] if not (f["name"] in gone and (it.get("self_name"), f["name"]) in methods)]
+                out.append(it)
+            return out
+        for fl in doc["files"]:
+            fl["items"] = prune(fl["items"])
+
+
+# ----------------------------------------------------------------------------------------------
+# 6. guard clauses in the ratio setters -> the if / else form
+
+
+def try_helpers(doc, log):
+    """`H(args)?;` / `let p = H(args)?;` at the top level of a function whose remaining statements end in a value, where the new helper H
+    ends in `if C { Ok(V) } else { Err(E) }`:  ->  `<H's lets>; if C { [let p = V;] rest } else { Err(E) }` (the `?` returns Err(E) from the
+    function, which is what the else branch now yields as the function's value)."""
+    fns = all_fns(doc)
+    free = {}
+    for path, owner, is_trait, fn in fns:
+        if fn.get("body") is not None and owner is None and fn["name"] not in KNOWN_FNS and (fn.get("vis") or "") != "pub":
+            free.setdefault(fn["name"], []).append(fn)
+    free = {k: v[0] for k, v in free.items() if len(v) == 1}
+    if not free:
+        return
+    n = [0]
+
+    def okerr(e, which):
+        while isinstance(e, dict) and e.get("k") == "block" and len(e.get("stmts", [])) == 1 and e["stmts"][0].get("k") == "expr":
+            e = e["stmts"][0]["e"]
+        if isinstance(e, dict) and e.get("k") == "call" and isinstance(e.get("f"), dict) and e["f"].get("p", "").split("::")[-1] == which and len(e["args"]) == 1:
+            return e["args"][0]
+        return None
+    for path, owner, is_trait, fn in fns:
+        if fn.get("body") is None:
+            continue
+        changed = True
+        while changed:
+            changed = False
+            st = fn["body"]["stmts"]
+            for i, s in enumerate(st):
+                target = None
+                e = None
+                if s.get("k") == "semi" and isinstance(s.get("e"), dict) and s["e"].get("k") == "try":
+                    e = s["e"]["e"]
+                elif s.get("k") == "let" and isinstance(s.get("init"), dict) and s["init"].get("k") == "try" and s["pat"].get("k") == "pident":
+                    e = s["init"]["e"]
+                    target = s
+                if not (isinstance(e, dict) and e.get("k") == "call" and isinstance(e.get("f"), dict) and e["f"].get("k") == "path"):
+                    continue
+                name = e["f"]["p"].split("::")[-1].split("<")[0]
+                h = free.get(name)
+                rest = st[i + 1:]
+                if h is None or not rest or rest[-1].get("k") != "expr":
+                    continue
+                params = [p for p in h["params"] if p.get("name")]
+                if len(params) != len(e["args"]) or not all(_pure_arith(a) for a in e["args"]):
+                    continue
+                hb = h["body"]["stmts"]
+                if not hb or hb[-1].get("k") != "expr" or hb[-1]["e"].get("k") != "if" or hb[-1]["e"].get("else") is None:
+                    continue
+                if any(x.get("k") in ("return", "try", "assign", "opassign") for x in walk(hb)):
+                    continue
+                iff = hb[-1]["e"]
+                v_ok, v_err = okerr(iff["then"], "Ok"), okerr(iff["else"], "Err")
+                neg = False
+                if v_ok is None or v_err is None:
+                    v_ok, v_err = okerr(iff["else"], "Ok"), okerr(iff["then"], "Err")
+                    neg = True
+                if v_ok is None or v_err is None or not all(x.get("k") == "let" for x in hb[:-1]):
+                    continue
+                n[0] += 1
+                sfx = "__t%d" % n[0]
+                env = {p["name"]: (a, False, a) for p, a in zip(params, e["args"])}
+                lets = _subst(_rename_locals(copy.deepcopy(hb[:-1]), sfx), env)
+                # the renaming touched only the helper's own locals; its references to them inside the final `if` are renamed the same way
+                tail_if = _subst(_rename_locals([{"k": "expr", "e": copy.deepcopy(iff)}] + copy.deepcopy(hb[:-1]), sfx)[0]["e"], env)
+                v_ok2 = okerr(tail_if["else"] if neg else tail_if["then"], "Ok")
+                v_err2 = okerr(tail_if["then"] if neg else tail_if["else"], "Err")
+                then_stmts = []
+                if target is not None:
+                    t2 = dict(target)
+                    t2["init"] = v_ok2
+                    then_stmts.append(t2)
+                then_stmts += rest
+                cond = _neg(tail_if["c"]) if neg else tail_if["c"]
+                new_if = {"k": "if", "c": cond, "then": {"k": "block", "stmts": then_stmts, "ln": s.get("ln", 0)},
+                          "else": {"k": "block", "stmts": [{"k": "expr", "e": {"k": "call", "f": {"k": "path", "p": "Err", "g": None, "ln": 0}, "args": [v_err2], "ln": s.get("ln", 0)},
+                                                            "ln": s.get("ln", 0)}], "ln": s.get("ln", 0)}, "ln": s.get("ln", 0)}
+                fn["body"]["stmts"] = st[:i] + lets + [{"k": "expr", "e": new_if, "ln": s.get("ln", 0)}]
+                log.append("`%s(..)?` in %s rewritten as if / else" % (name, fn["name"]))
+                changed = True
+                break
+
+
+def setter_guards(doc, log):
+    for path, owner, is_trait, fn in all_fns(doc):
+        if fn.get("body") is None or fn["name"] not in ("set_resample_ratio", "set_resample_ratio_relative"):
+            continue
+        st = fn["body"]["stmts"]
+        for i, s in enumerate(st):
+            e = s.get("e") if s.get("k") in ("semi", "expr") else None
+            if e is None or e.get("k") != "if" or e.get("else") is not None or e["c"].get("k") == "letcond":
+                continue
+            tb = e["then"]["stmts"]
+            last = tb[-1].get("e") if tb and tb[-1].get("k") in ("semi", "expr") else None
+            if len(tb) != 1 or last is None or last.get("k") != "return" or not isinstance(last.get("e"), dict):
+                continue
+            rest = st[i + 1:]
+            if not rest or rest[-1].get("k") != "expr":
+                continue
+            new_if = {"k": "if", "c": _neg(e["c"]), "then": {"k": "block", "stmts": rest, "ln": s.get("ln", 0)},
+                      "else": {"k": "block", "stmts": [{"k": "expr", "e": last["e"], "ln": last.get("ln", 0)}], "ln": last.get("ln", 0)}, "ln": e.get("ln", 0)}
+            fn["body"]["stmts"] = st[:i] + [{"k": "expr", "e": new_if, "ln": s.get("ln", 0)}]
+            log.append("%s: guard clause rewritten as if / else" % fn["name"])
+            break
+
+
 def normalise(doc):
     log = []
     canonical_fields(doc, log)
@@ -519,6 +735,9 @@ def normalise(doc):
     for fl in doc["files"]:
         fl["items"] = option_match_to_iflet(fl["items"])
         continue_guards(fl["items"])
+    try_helpers(doc, log)
     inline_helpers(doc, log)
+    inline_expr_helpers(doc, log)
+    setter_guards(doc, log)
     doc["normalisation_log"] = log
     return doc
